@@ -106,6 +106,8 @@ Definition in_cs (l : N) (p : pc) : bool :=
   | AInc _ _ _ => requires_sync l
   | _ => false
   end.
+(* program counters at which the thread is outside every VersionManager function *)
+Definition rest_pc (p : pc) : bool := match p with Idle | WBody => true | _ => false end.
 
 Definition pc_kind_ok (p : pc) : Prop :=
   match p with
@@ -117,7 +119,7 @@ Definition pc_kind_ok (p : pc) : Prop :=
 Definition pc_level_ok (l : N) (p : pc) : Prop :=
   requires_sync l = false ->
   match p with
-  | Idle | RDec _ => True
+  | Idle | RDec _ | WBody => True
   | AInc _ m v => m = 1 /\ v = 1
   | _ => False
   end.
@@ -157,8 +159,9 @@ Record tinv (s : shared) (tid : nat) (th : thread) : Prop := {
 }.
 
 Record ginv (st : state) : Prop := {
-  g_ar : ar (sh st) = sumf (cnt KR) (ths st);
-  g_aw : aw (sh st) = sumf (cnt KW) (ths st);
+  g_ar : ar (sh st) = sumf (cnt KR) (ths st) + count_kind KR (mail (sh st));
+  g_aw : aw (sh st) = sumf (cnt KW) (ths st) + count_kind KW (mail (sh st));
+  g_mail : Forall (tok_ok (sh st)) (mail (sh st));
   g_min : minv (sh st) <= cur (sh st);
   g_excl : lvl (sh st) = 3 -> aw (sh st) <= 1;
   g_nosync : requires_sync (lvl (sh st)) = false -> cur (sh st) = 1 /\ minv (sh st) = 1;
